@@ -34,7 +34,7 @@ RULE = ('cases = (function, key name + input form, issuer id as text or componen
         'generated deterministically from the seed and partitioned by index % nshards; every case that produced a '
         'certificate on which all contracts were evaluated is non-trivial; distinct = distinct case descriptions '
         '(repeated randomised ECDSA signatures of one description count once)')
-BOUND = ('subject keys EC P-256/384/521, RSA-1024/2048, Ed25519; issuing signers ECDSA P-256/384/521 (quick 60/15/15, '
+BOUND = ('subject keys EC P-256/384/521, RSA-1024/2048, Ed25519; issuing signers ECDSA P-256/384/521 (quick 100/25/25, '
          'thorough 200 signatures per subject for DER lengths), RSA-1024/2048, Ed25519 and a synthetic signer writing '
          'r in 0..S bytes (S in {72,104,140,252}); key names of 1..5 components in list / encoded / URI form; issuer ids: '
          'unreserved-ASCII text or any single component; start instants 1970..2199 at whole seconds incl. year ends, '
@@ -336,7 +336,7 @@ def gen_cases(tier, seed):
             for _ in range(4 if thorough else 1):
                 cases.append(derive(sub, signer(iss)))
     # B. many ECDSA signatures per subject (DER length varies), small fixed description + rep
-    for iss, reps in (('p256', 200 if thorough else 60), ('p384', 200 if thorough else 15), ('p521', 200 if thorough else 15)):
+    for iss, reps in (('p256', 200 if thorough else 100), ('p384', 200 if thorough else 25), ('p521', 200 if thorough else 25)):
         for sub in (SUBJECTS if thorough else ['p256', 'rsa2048', 'ed25519']):
             base = derive(sub, signer(iss), fn='derive_cert')
             for rep in range(reps):
@@ -356,7 +356,7 @@ def gen_cases(tier, seed):
                 if st[0] >= 2199 and dur > 86400:
                     continue
                 cases.append(derive(rng.choice(SUBJECTS), signer(rng.choice(['ed25519', 'p256'])), {'ymdhms': st, 'tz': tz}, dur))
-    for _ in range(6000 if thorough else 150):
+    for _ in range(6000 if thorough else 400):
         cases.append(derive(rng.choice(SUBJECTS), signer(rng.choice(['ed25519', 'ed25519', 'p256', 'rsa1024'])), gen_start(rng),
                             rng.choice(DURATIONS + [rng.randint(1, 631152000)])))
     # E. self_sign / sign_req (issuer == subject key), real clock and patched clocks
